@@ -44,9 +44,14 @@ func H_C11_verify() {
 	}
 	var spies []*spyVerifier
 	var verifiers []Verifier
+	// a rejecting verifier reports its own error or the library's ErrVerification (as the built-in ones do)
+	var failErr error
+	if vChoose("failkind", 2) == 1 {
+		failErr = ErrVerification
+	}
 	for j := 0; j < m; j++ {
 		nm := "v" + string(rune('0'+j))
-		sp := &spyVerifier{alg: Algorithm(vInt64(nm + ".alg")), fail: vBool(nm + ".fail")}
+		sp := &spyVerifier{alg: Algorithm(vInt64(nm + ".alg")), fail: vBool(nm + ".fail"), failErr: failErr}
 		spies = append(spies, sp)
 		verifiers = append(verifiers, sp)
 	}
@@ -92,6 +97,13 @@ func H_C11_verify() {
 				vAssert("verify: emitted message is tag + 4-array", false)
 			}
 		}
+		// the verdict is recomputed on every call: the same message object, now with one rejecting verifier
+		k := vChoose("again.failAt", n)
+		var again []Verifier
+		for j := 0; j < n; j++ {
+			again = append(again, &spyVerifier{alg: spies[j].alg, fail: j == k, failErr: failErr})
+		}
+		vAssert("verify: a later call with a rejecting verifier at any position fails", msg.Verify(ext, again...) != nil)
 	}
 	vReach("end")
 }
